@@ -93,7 +93,7 @@ struct Cfg {
     bool flag[NFLAGS] = {};
     bool shuffle = false;
     size_t repeat = 0, seed = 0;
-    int out = OUT_NONE; int out_count = 0;
+    int out = OUT_NONE; int out_count = 0; bool is_eclipse = false, is_junit = false, is_teamcity = false;
     std::string pkg;
     std::vector<Filt> gf, nf;
 };
@@ -114,6 +114,7 @@ void read_cfg(const CommandLineArguments& c, Cfg& o) {
     o.flag[F_LG] = c.isListingTestGroupNames(); o.flag[F_LN] = c.isListingTestGroupAndCaseNames(); o.flag[F_LL] = c.isListingTestLocations();
     o.flag[F_RI] = c.isRunIgnored(); o.flag[F_F] = c.isCrashingOnFail(); o.flag[F_NORETHROW] = !c.isRethrowingExceptions();
     o.shuffle = c.isShuffling(); o.repeat = c.getRepeatCount(); o.seed = c.getShuffleSeed();
+    o.is_eclipse = c.isEclipseOutput(); o.is_junit = c.isJUnitOutput(); o.is_teamcity = c.isTeamCityOutput();
     o.out_count = (c.isEclipseOutput() ? 1 : 0) + (c.isJUnitOutput() ? 1 : 0) + (c.isTeamCityOutput() ? 1 : 0);
     o.out = c.isJUnitOutput() ? OUT_JUNIT : c.isTeamCityOutput() ? OUT_TEAMCITY : c.isEclipseOutput() ? OUT_ECLIPSE : OUT_NONE;
     o.pkg = c.getPackageName().asCharString();
@@ -390,7 +391,7 @@ void build_instances() {
     // "[IGNORE_]TEST(<group>, <name>)"
     for (const char* macro : {"TEST(", "IGNORE_TEST("}) { int pi = 0; for (auto& pr : pairs) { Inst i; i.kind = K_TEST; i.a = pr.g; i.b = pr.n; i.strict = true; i.argv = {std::string(macro) + pr.g + ", " + pr.n + ")"}; add_inst(i, (macro[0] == 'T' && (pi == 0 || pi == 3)) || (macro[0] == 'I' && pi == 1)); pi++; } }
     // -o{normal|eclipse|junit|teamcity}
-    struct { const char* v; int out; int core; } outs[] = {{"normal", OUT_ECLIPSE, 1}, {"eclipse", OUT_ECLIPSE, 0}, {"junit", OUT_JUNIT, 3}, {"teamcity", OUT_TEAMCITY, 2}};
+    struct { const char* v; int out; int core; } outs[] = {{"normal", OUT_ECLIPSE, 1}, {"eclipse", OUT_ECLIPSE, 2}, {"junit", OUT_JUNIT, 3}, {"teamcity", OUT_TEAMCITY, 2}};
     for (auto& o : outs) { Inst p; p.kind = K_OUT; p.num = o.out; add_valued("-o", o.v, p, o.core); }
     // -k <packageName>
     for (const char* v : {"pkg", "A"}) { Inst p; p.kind = K_PKG; p.a = v; add_valued("-k", v, p, std::string(v) == "pkg" ? 2 : 1); }
@@ -415,13 +416,13 @@ Ref reference(const std::vector<int>& seq) {
         if (i.kind == K_SHUFFLE && i.num == 0) { r.other_reject = true; r.reject = true; continue; }
         switch (i.kind) {
         case K_FLAG: r.flag[i.flag] = true; break;
-        case K_REPEAT: r.repeats.insert(i.num); break;
-        case K_SHUFFLE: r.shuffle = true; r.seeds.insert(i.num); break;
+        case K_REPEAT: r.repeats = {i.num}; break;                 // the last occurrence of a single-valued option decides
+        case K_SHUFFLE: r.shuffle = true; r.seeds = {i.num}; break;
         case K_GF: r.gf.push_back({i.a, i.strict, i.inv}); break;
         case K_NF: r.nf.push_back({i.a, i.strict, i.inv}); break;
         case K_DOT: case K_TEST: r.gf.push_back({i.a, i.strict, i.inv}); r.nf.push_back({i.b, i.strict, i.inv}); break;
-        case K_OUT: r.outs.insert((int)i.num); break;
-        case K_PKG: r.pkgs.insert(i.a); break;
+        case K_OUT: r.outs = {(int)i.num}; break;
+        case K_PKG: r.pkgs = {i.a}; break;
         default: break;
         }
     }
@@ -468,9 +469,9 @@ void meaning_case(const std::vector<int>& seq, bool through_runner) {
     if (c.shuffle != ref.shuffle) vf::fail("getter/shuffling", A + vf::fmt(": isShuffling() = %d, documented %d", (int)c.shuffle, (int)ref.shuffle));
     if (ref.shuffle) {
         bool okseed = c.seed != 0 && (ref.seeds.count(-1) || ref.seeds.count((long)c.seed));
-        if (!okseed) vf::fail("getter/shuffle-seed", A + vf::fmt(": seed %zu is none of the seeds given (and 0 is never valid)", c.seed));
+        if (!okseed) vf::fail("getter/shuffle-seed", A + vf::fmt(": seed %zu is not the seed of the last -s (and 0 is never valid)", c.seed));
     }
-    if (c.out_count != 1 || !ref.outs.count(c.out)) vf::fail("getter/output-kind", A + vf::fmt(": output kind %d (0 eclipse/normal, 1 junit, 2 teamcity), %d kinds reported", c.out, c.out_count));
+    if (c.out_count != 1 || !ref.outs.count(c.out)) vf::fail("getter/output-kind", A + vf::fmt(": output kind %d, documented %d by the last -o (0 eclipse/normal, 1 junit, 2 teamcity); eclipse=%d junit=%d teamcity=%d", c.out, *ref.outs.begin(), (int)c.is_eclipse, (int)c.is_junit, (int)c.is_teamcity));
     if (!ref.pkgs.count(c.pkg)) vf::fail("getter/package-name", A + ": package name \"" + vf::esc(c.pkg) + "\"");
     if (as_set(c.gf) != as_set(ref.gf)) vf::fail("filters/group-list", A + ": group filters " + show(c.gf) + ", documented " + show(ref.gf));
     if (as_set(c.nf) != as_set(ref.nf)) vf::fail("filters/name-list", A + ": name filters " + show(c.nf) + ", documented " + show(ref.nf));
@@ -541,7 +542,8 @@ void meaning_case(const std::vector<int>& seq, bool through_runner) {
     RunObs r = runner_run(a);
     vf::count("ops");
     bool listing = ref.flag[F_LG] || ref.flag[F_LN] || ref.flag[F_LL];
-    bool console_out = c.out == OUT_ECLIPSE;
+    const int xout = *ref.outs.begin(); const std::string xpkg = *ref.pkgs.begin();     // documented, not observed
+    bool console_out = xout == OUT_ECLIPSE;
     if (listing) {
         if (!r.runlog.empty()) vf::fail("runner/list-mode-ran-tests", A + vf::fmt(": %zu test executions in a list mode", r.runlog.size()));
         if (console_out) {
@@ -583,12 +585,12 @@ void meaning_case(const std::vector<int>& seq, bool through_runner) {
     if (r.rethrow == ref.flag[F_NORETHROW]) vf::fail("runner/rethrow", A + vf::fmt(": rethrowing=%d", (int)r.rethrow));
     // output kind
     bool junit_file = false, pkg_ok = true;
-    for (auto& f : r.files) { if (contains(f, ".xml")) junit_file = true; if (!c.pkg.empty() && f.compare(0, 10 + c.pkg.size(), "cpputest_" + c.pkg + "_") != 0) pkg_ok = false; }
-    if (c.out == OUT_JUNIT) {
+    for (auto& f : r.files) { if (contains(f, ".xml")) junit_file = true; if (!xpkg.empty() && f.compare(0, 10 + xpkg.size(), "cpputest_" + xpkg + "_") != 0) pkg_ok = false; }
+    if (xout == OUT_JUNIT) {
         if (!junit_file) vf::fail("runner/junit-output", A + ": -ojunit but no xml file written");
         if (!pkg_ok) vf::fail("runner/junit-package", A + ": xml file name lacks the package name: " + r.files[0]);
     } else if (!r.files.empty()) vf::fail("runner/file-output-without-junit", A + ": file " + r.files[0] + " written");
-    if ((c.out == OUT_TEAMCITY) != contains(r.console, "##teamcity[")) vf::fail("runner/teamcity-output", A + ": teamcity service messages present/absent against -oteamcity");
+    if ((xout == OUT_TEAMCITY) != contains(r.console, "##teamcity[")) vf::fail("runner/teamcity-output", A + ": teamcity service messages present/absent against -oteamcity");
     if (console_out) {
         bool any_verbose = ref.flag[F_V] || ref.flag[F_VV];
         if (any_verbose) { for (int id : per_rep) { std::string nm = std::string("TEST(") + GROUPS[probe_gi(id)] + ", " + NAMES[probe_ni(id)] + ")"; if (!contains(r.console, nm)) { vf::fail("runner/verbose-output", A + ": -v but " + nm + " not printed"); break; } } }
